@@ -706,6 +706,51 @@ func (m *Machine) callBuiltin(caller *frame, pos token.Pos, fn *ssa.Builtin, arg
 		return recv
 	case "ssa:deferstack":
 		return &caller.defers
+	case "SliceData":
+		sl := args[0].(Slice)
+		if sl == nil {
+			return (*Value)(nil)
+		}
+		return UPtr{Sl: sl[:len(sl):cap(sl)], Kind: 2}
+	case "StringData":
+		st := m.strOf(args[0])
+		return UPtr{Str: &st, Kind: 1}
+	case "String":
+		n := int(m.concInt(args[1], "unsafe.String len"))
+		switch p := args[0].(type) {
+		case UPtr:
+			switch p.Kind {
+			case 2:
+				return mkStr(m.sliceBytes(p.Sl[:n]))
+			case 1:
+				return m.strSlice(*p.Str, 0, n)
+			}
+			if n == 0 {
+				return Str{}
+			}
+		case *Value:
+			if n == 0 {
+				return Str{}
+			}
+		}
+	case "Slice":
+		n := int(m.concInt(args[1], "unsafe.Slice len"))
+		if p, ok := args[0].(UPtr); ok {
+			switch p.Kind {
+			case 2:
+				return p.Sl[:n]
+			case 1:
+				bs := m.strBytes(m.strSlice(*p.Str, 0, n))
+				out := make(Slice, n)
+				for i := range out {
+					out[i] = bs[i]
+				}
+				return out
+			}
+		}
+		if n == 0 {
+			return Slice(nil)
+		}
 	}
 	panic(unsupported("builtin " + fn.Name() + fmt.Sprintf(" (%T)", args[0])))
 }
